@@ -17,7 +17,7 @@ pub const INFO: CheckInfo = CheckInfo {
         "R2/R3 (independent RFC 1951/1950/1952 decoder) is trusted; it is cross-validated against zlib-ng at start-up",
     ],
     bound_quick: "tiny: (2,7)+(3,4)+(4,3) strings x 300 cfgs x SD(1); shape: ~50 inputs x 450 cfgs (stride 3) x lattice splits; big: 8 inputs x 49 cfgs x boundary splits",
-    bound_thorough: "tiny: (2,12)+(3,8)+(4,6) strings x 300 cfgs x SD(1); shape: ~110 inputs x 450 cfgs x every split position; big: 11 inputs x 315 cfgs",
+    bound_thorough: "tiny: (2,10)+(3,6)+(4,5) strings x 300 cfgs x SD(1); shape: ~110 inputs x 450 cfgs x every split position; big: 11 inputs x 315 cfgs",
 };
 
 pub fn decode_ref(cfg_wrap: Wrap, data: &[u8]) -> r3::Wrapped {
@@ -85,7 +85,7 @@ pub fn describe_wrapped(w: &r3::Wrapped) -> String {
 }
 
 pub fn run(ctx: &mut Ctx) {
-    let fams = dfam::build_depth(ctx.quick(), if ctx.quick() { 0 } else { 2 });
+    let fams = dfam::build_depth(ctx.quick(), if ctx.quick() { 0 } else { 1 });
     let env = Env::new();
     // copies run with an allocator that pre-fills every block: what a duplicate forgot to carry over is then a known,
     // wrong value in every repetition (not whatever malloc happened to return)
